@@ -200,6 +200,17 @@ func runRTCase(c rtCase) *core.Failure {
 	if d := model.Diff(want, back); d != "" {
 		return core.Failf("ReadCSV(ToCSV(frame)) differs: %s\n %s\n want: %s\n  got: %s", d, desc, want, back)
 	}
+	// a second read with the SAME option values (options are values a program keeps): same frame, and an enum
+	// column read that way still is the declared, strict enum
+	again := qframe.ReadCSV(bytes.NewReader(out), rc...)
+	if d := model.Diff(want, model.Observe(again)); d != "" {
+		return core.Failf("a second ReadCSV with the same option values differs: %s\n %s", d, desc)
+	}
+	for name := range enums {
+		if r := again.Filter(qframe.Filter{Column: name, Comparator: "=", Arg: "~never declared~"}); r.Err == nil && len(enums[name]) > 0 {
+			return core.Failf("after a second ReadCSV with the same option values column %s accepts an undeclared constant: it lost its declared values\n %s", name, desc)
+		}
+	}
 	return nil
 }
 
